@@ -622,3 +622,21 @@ def c18(tier):
              include_units=["polyfill"], stubs=PS, est=200, mem="L", timeout=2400, tier="thorough", core=False, bound="polygonToCellsExperimental, triangle, res <= 1")]
     js += with_witness(J("frame_errdesc", "C18_frame.c", ["-DERRDESC"], unwind=17, include_units=["h3Index"], est=10, bound="describeH3Error on any int"))
     return js
+
+
+# ------------------------------------------------------------------------------------------- C16
+@prop("C16",
+      functions=["cellsToLinkedMultiPolygon", "destroyLinkedMultiPolygon", "destroyLinkedGeoLoop", "addNewLinkedPolygon", "addNewLinkedLoop", "addLinkedCoord", "h3SetToVertexGraph", "destroyVertexGraph", "addVertexNode", "removeVertexNode", "findNodeForEdge", "firstVertexNode", "initVertexGraph"],
+      bounds="memory clauses only. Call protocol of cellsToLinkedMultiPolygon: any component results. destroyLinkedMultiPolygon: every result shape with <= 2 polygons x <= 2 loops x <= 2 coordinates. h3SetToVertexGraph: 2 cells, boundaries of <= 3 arbitrary vertices, arbitrary hash, failure at either cell",
+      outside="every geometric clause (components, orientation, closure, vertex provenance, area): needs real cell boundaries (trig) and point-in-loop tests (symbolic FP division); larger sets and shapes",
+      assumptions=["S-GEO cellToBoundary and an arbitrary _hashVertex in the graph job; allocator shim never fails in these jobs (linkedGeo/vertexGraph assert non-null)"],
+      stubs=["GLUE: h3SetToVertexGraph, _vertexGraphToLinkedGeo, destroyVertexGraph, normalizeMultiPolygon, destroyLinkedMultiPolygon", "GRAPHERR: cellToBoundary, _hashVertex"])
+def c16(tier):
+    js = []
+    js += with_witness(J("glue_protocol", "C16_linked.c", ["-DGLUE"], unwind=3, est=5, witness_expect=["build error", "normalize error"],
+                         stubs={"algos": ["h3SetToVertexGraph", "_vertexGraphToLinkedGeo"], "vertexGraph": ["destroyVertexGraph"], "linkedGeo": ["normalizeMultiPolygon", "destroyLinkedMultiPolygon"]}, bound="any component results"))
+    LLp = {"destroyLinkedMultiPolygon.0": 4, "destroyLinkedMultiPolygon.1": 4, "destroyLinkedGeoLoop.0": 4, "harness.0": 25, "harness.1": 4, "harness.2": 5, "harness.3": 4, "harness.4": 4, "harness.5": 4, "vp_alloc_init.0": 17}
+    js += with_witness(J("destroy_shapes", "C16_linked.c", ["-DDESTROY", "-DVP_MAXALLOC=16"], alloc=True, mode="debug", unwind=5, us=LLp, est=60, mem="M", timeout=1800, bound="<= 2 polygons x <= 2 loops x <= 2 coordinates"))
+    GL = {"h3SetToVertexGraph.0": 5, "h3SetToVertexGraph.1": 5, "findNodeForEdge.0": 8, "addVertexNode.0": 8, "removeVertexNode.0": 8, "firstVertexNode.0": 8, "destroyVertexGraph.0": 9, "cellToBoundary.0": 4, "harness.0": 13, "vp_alloc_init.0": 13, "memset.0": 8, "memset.1": 8, "memset.2": 2}
+    js += with_witness(J("graph_error", "C16_linked.c", ["-DGRAPHERR"], alloc=True, mode="debug", unwind=8, us=GL, stubs={"h3Index": ["cellToBoundary"], "vertexGraph": ["_hashVertex"]}, est=300, mem="L", timeout=2400, tier="thorough", core=False, bound="2 cells, <= 3 vertices each"))
+    return js
